@@ -88,9 +88,8 @@ DECL_EN = D + ["TyPrim", "Int", "Loop"]
 focus("decls",
       dict(Enabled=DECL_EN, FlagSets="<- FlagSets_all", MaxDecls=2, MaxParams=2, MaxMembers=2, MaxStmts=1, MaxNodes=7,
            ParamNames=["p", "q"], MemberNames=["m", "n"], WordSizes=nset([1, 16]), Files="<- Files_all"),
-      dict(Enabled=DECL_EN, FlagSets="<- FlagSets_all", MaxDecls=3, MaxParams=3, MaxMembers=3, MaxStmts=2, MaxNodes=8,
-           ParamNames=["p", "q"], MemberNames=["m", "n"], WordSizes=nset([1, 16]), FnNames=["f", "g"],
-           Files="<- Files_all"))
+      dict(Enabled=DECL_EN, FlagSets="<- FlagSets_all", MaxDecls=2, MaxParams=3, MaxMembers=3, MaxStmts=2, MaxNodes=9,
+           ParamNames=["p", "q"], MemberNames=["m", "n"], WordSizes=nset([1, 16]), Files="<- Files_all"))
 # --- word sizes; the struct member list without its last comma (accepted by generation 1, not shown in the documents)
 focus("loose",
       dict(Enabled=["Module", "Struct", "Word", "Member", "TyPrim"], MaxMembers=2, MaxNodes=6, LooseMembers="TRUE",
@@ -98,20 +97,19 @@ focus("loose",
 # --- types: every form in every context, nested
 focus("types",
       dict(Enabled=["Module", "Head", "Param"] + TYP, MaxParams=1, MaxNodes=8),
-      dict(Enabled=["Module", "Head", "Param"] + TYP, MaxParams=1, MaxNodes=9, PrimTypes=["u8", "bool"],
-           ArrayLens="<- ArrayLens_all"))
+      dict(Enabled=["Module", "Head", "Param"] + TYP, MaxParams=1, MaxNodes=9, PrimTypes=["u8", "bool"]))
 # --- statements in sequence: all simple forms, expressions reduced to `x`
 FLAT_EN = ["Module", "Fn", "Var", "Set", "Call", "BCall", "Loop", "Goto", "Label", "Deref", "TyPrim"]
 focus("flat",
       dict(Enabled=FLAT_EN, MaxStmts=3, MaxArgs=1, MaxNodes=8, VarForms="<- VarForms_all", GotoNames=["l", "return"],
            SetAddrs=nset([0, 1])),
-      dict(Enabled=FLAT_EN, MaxStmts=4, MaxArgs=2, MaxNodes=10, VarForms="<- VarForms_all", GotoNames=["l", "return"],
+      dict(Enabled=FLAT_EN, MaxStmts=4, MaxArgs=2, MaxNodes=9, VarForms="<- VarForms_all", GotoNames=["l", "return"],
            SetAddrs=nset([0, 1, 2])))
 # --- nesting of if / else / else-if / blocks
 NEST_EN = ["Module", "Fn", "Goto", "Loop", "If", "Block", "Deref"]
 focus("nest",
       dict(Enabled=NEST_EN, MaxStmts=3, MaxBlock=3, MaxNodes=8),
-      dict(Enabled=NEST_EN + ["Set"], MaxStmts=3, MaxBlock=3, MaxNodes=10))
+      dict(Enabled=NEST_EN, MaxStmts=3, MaxBlock=3, MaxNodes=10))
 # --- expressions: operators, precedence and associativity patterns over the atoms `x` and `1`
 EXPR_OPS = dict(AddOps=["+", "-"], MulOps=["*", "/", "%"], BitOps=["&", "|", "^"], ShiftOps=["<<", ">>"], UnOps=["-", "!"])
 EXPR_EN = ["Module", "Fn"] + OPS + ["Deref", "Int", "TyPrim"]
@@ -127,19 +125,22 @@ focus("ops",
 # --- calls, array and structure literals, reference chains: list shapes and nesting
 LIST_EN = ["Module", "Fn", "FCall", "Array", "Structural", "FieldFull", "FieldShort", "Deref", "Idx", "Mem", "Len", "Int"]
 focus("lists",
-      dict(Enabled=LIST_EN, MaxArgs=2, MaxElems=2, MaxFields=2, MaxSteps=2, MaxNodes=7, TrailingCommas="{TRUE, FALSE}"),
-      dict(Enabled=LIST_EN + ["BinAdd"], MaxArgs=3, MaxElems=3, MaxFields=2, MaxSteps=2, MaxNodes=8, Addrs=nset([0, 2]),
-           TrailingCommas="{TRUE, FALSE}", MemberNames=["m", "n"]))
+      dict(Enabled=LIST_EN, MaxArgs=2, MaxElems=2, MaxFields=2, MaxSteps=2, MaxNodes=7),
+      dict(Enabled=LIST_EN, MaxArgs=3, MaxElems=3, MaxFields=2, MaxSteps=2, MaxNodes=8, MemberNames=["m", "n"]))
+# --- optional trailing commas: [a, b,]  S { m: 1, }  f(a, b,)
+focus("commas",
+      dict(Enabled=LIST_EN, MaxArgs=2, MaxElems=2, MaxFields=2, MaxSteps=1, MaxNodes=6, TrailingCommas="{TRUE, FALSE}"),
+      dict(Enabled=LIST_EN + ["Call"], MaxStmts=1, MaxArgs=2, MaxElems=2, MaxFields=1, MaxSteps=1, MaxNodes=7,
+           TrailingCommas="{TRUE, FALSE}"))
 # --- `f(x,x,x,x)`-like argument lists (long lists of small items)
 focus("args",
       dict(Enabled=["Module", "Fn", "Call", "Deref", "Array"], MaxStmts=1, MaxArgs=6, MaxElems=6, MaxNodes=9),
-      dict(Enabled=["Module", "Fn", "Call", "Deref", "Array", "Int"], MaxStmts=1, MaxArgs=7, MaxElems=7, MaxNodes=10))
+      dict(Enabled=["Module", "Fn", "Call", "Deref", "Array"], MaxStmts=1, MaxArgs=7, MaxElems=7, MaxNodes=10))
 # --- conditions: expressions inside a condition (no structure literal there), both comparison sides
 COND_EN = ["Module", "Fn", "If", "Goto", "Block", "BinAdd", "BinBit", "Paren", "Deref", "Int", "FCall", "Un"]
 focus("conds",
       dict(Enabled=COND_EN, MaxStmts=1, MaxArgs=1, MaxNodes=8, CmpOps=["==", "<"]),
-      dict(Enabled=COND_EN + ["Len", "As", "TyPrim", "Idx"], MaxStmts=1, MaxArgs=1, MaxSteps=1, MaxNodes=9,
-           CmpOps=["==", "!=", "<", ">", "<=", ">="]))
+      dict(Enabled=COND_EN + ["Len", "As", "TyPrim", "Idx"], MaxStmts=1, MaxArgs=1, MaxSteps=1, MaxNodes=9, CmpOps=["==", "<"]))
 # --- atoms: every literal spelling, every primitive type, every builtin, address depths, comparison operators
 ATOM_EN = ["Module", "Fn", "Const", "Int", "Bool", "Char", "Str", "Deref", "Len", "SizeOf", "As", "Un", "BFCall", "TyPrim",
            "TyNamed", "Import", "If", "Goto"]
@@ -147,10 +148,9 @@ focus("atoms",
       dict(Enabled=ATOM_EN, MaxArgs=1, MaxStmts=1, MaxNodes=5, IntLits="<- IntLits_all", CharLits="<- CharLits_all",
            StrLits="<- StrLits_all", PrimTypes=ALL_PRIM, Builtins=ALL_BUILTINS, Addrs=nset([0, 1, 2, 3]), UnOps=["-", "!"],
            Files="<- Files_all", CmpOps=["==", "!=", "<", ">", "<=", ">="]))
-# --- forms the documents do not show but generation 1 accepts: |&x|, a string ending in an escaped quote
+# --- a form the documents do not show but generation 1 accepts: the address operator inside |x|
 focus("undoc",
-      dict(Enabled=["Module", "Fn", "Len", "Str", "Idx", "Mem", "Int"], MaxNodes=5, MaxSteps=1, LenAddrs=nset([1, 2]),
-           StrLits="<- StrLits_endq"))
+      dict(Enabled=["Module", "Fn", "Len", "Idx", "Mem", "Int"], MaxNodes=5, MaxSteps=1, LenAddrs=nset([1, 2])))
 
 ORDER = ["Mode", "MaxNodes", "Enabled", "FlagSets", "VarForms", "FnNames", "ParamNames", "VarNames", "LabelNames",
          "GotoNames", "MemberNames", "TypeNames", "ConstNames", "Builtins", "PrimTypes", "WordSizes", "Files", "IntLits",
